@@ -1748,7 +1748,7 @@ class sptensor:
             # Nothing stored, nothing to scale
             shapeArray = np.array(self.shape)
             if isinstance(factor, np.ndarray):
-                if factor.shape[0] != shapeArray[dims]:
+                if dims.size != 1 or factor.shape != (shapeArray[dims[0]],):
                     assert False, "Size mismatch in scale"
             elif not np.array_equal(factor.shape, shapeArray[dims]):
                 assert False, "Size mismatch in scale"
@@ -1772,7 +1772,7 @@ class sptensor:
             )
         if isinstance(factor, np.ndarray):
             shapeArray = np.array(self.shape)
-            if factor.shape[0] != shapeArray[dims]:
+            if dims.size != 1 or factor.shape != (shapeArray[dims[0]],):
                 assert False, "Size mismatch in scale"
             return ttb.sptensor(
                 self.subs,
